@@ -147,11 +147,22 @@ func decodeGrid() {
 						rep.Violate(hx.Violation{Kind: "correspondence", Signature: "C14:decode-differs", What: "DecodeModule memory limits differ from the regenerated sizer+Validate model",
 							Input: c, Expected: want, Actual: got})
 					}
+					// monitor (property, theorem decode_accepts_valid read on the real decoder): a valid memory type - declared
+					// maximum a valid wasm value (<= 65536, the boundary included), minimum within min(max, limit) - is
+					// ACCEPTED under both capacity settings
+					eff := limit
+					if mx != nil && *mx <= 65536 {
+						eff = min32(*mx, limit)
+					}
+					if err != nil && limit <= 65536 && (mx == nil || *mx <= 65536) && mn <= eff {
+						rep.Violate(hx.Violation{Kind: "impl-violation", Signature: "C14:valid-memory-type-rejected", What: fmt.Sprintf("a memory type within the limits (min %d <= min(max, limit) = %d) is rejected: %v", mn, eff, err),
+							Input: c, Expected: fmt.Sprintf("accepted with max %d", eff), Actual: err.Error()})
+					}
 					// monitor (property): accepted => min <= max <= limit and max == min(declared, limit)
 					if err == nil {
 						ms := mod.MemorySection
 						okp := ms.Min == mn && ms.Min <= ms.Max && ms.Max <= limit
-						if mx != nil && !cfm {
+						if mx != nil {
 							okp = okp && ms.Max == min32(*mx, limit)
 						}
 						if mx == nil {
